@@ -170,9 +170,13 @@ class Validator(SchemaVisitor[ValidationResult]):
                     return result.add_error(ValueValidationError(path, value, schema.props.value))
             else:
                 scale_factor = 10 ** schema.props.precision
-                scaled_actual = round(value * scale_factor)
-                scaled_expected = round(schema.props.value * scale_factor)
-                if not isclose(scaled_expected, scaled_actual, rel_tol=0, abs_tol=0):
+                try:
+                    scaled_actual = round(value * scale_factor)
+                    scaled_expected = round(schema.props.value * scale_factor)
+                    is_equal = isclose(scaled_expected, scaled_actual, rel_tol=0, abs_tol=0)
+                except (OverflowError, ValueError):  # inf, nan or overflow after scaling
+                    is_equal = (value == schema.props.value)
+                if not is_equal:
                     return result.add_error(ValueValidationError(path, value, schema.props.value))
 
         if schema.props.min is not Nil:
